@@ -70,10 +70,16 @@ CLAIMED = {
                      'C08_compose_counts, C08_compose_rejects, C08_transform_none, C08_make_leaf_none, C08_repr_affixes. children()/constructors/'
                      'transform rebuild laws: correspondence (5000+ lines per run) + oracle.' + PARTIAL,
                 technique='Lean 4 proof + correspondence', ref='6 C08'),
-    'C09': dict(text='Proved (partial): C09_rejects, C09_leaf_left_go, C09_leaf_right_go, C09_kind_conflict about the merge walk. Least-common-suffix, '
-                     'symmetry, idempotence, kept entries and n-ary broadcast map: correspondence against the model of BroadcastToCommonSuffixImpl '
-                     'plus a reference least-common-suffix in the oracle.' + PARTIAL,
-                technique='Lean 4 proof (partial) + correspondence + reference oracle', ref='6 C09'),
+    'C09': dict(text='Proved for all well-formed shapes whose payloads fit their kinds, any nesting and any dict key orders: C09_broadcast_refines - the merge walk '
+                     'of BroadcastToCommonSuffixImpl over the post-order encodings (integer cursors into both arrays, children last to first, the other '
+                     "node's children located by cursor table for dict kinds, result written in reverse post-order with the counts of each node patched "
+                     'after every child) returns ValueError exactly when the tree-level least common suffix STree.lub is undefined and otherwise the '
+                     'encoding of lub a b; C09_broadcast_cases, C09_lub_leaf, C09_lub_extends_left (the first operand is a prefix of the result, which '
+                     'keeps its node types, key order and custom entries), STree.prefixB_refl; C09_rejects, C09_leaf_left_go, C09_leaf_right_go, '
+                     'C09_kind_conflict. That the second operand is a prefix of the result, leastness, symmetry up to dict kind / order, idempotence, '
+                     'the leaf replication of tree_broadcast_prefix and the n-ary tree_broadcast_map: correspondence against the model plus a reference '
+                     'least-common-suffix in the oracle.' + PARTIAL,
+                technique='Lean 4 proof (refinement of the two-array merge walk to a tree-level lub, induction on fuel + list inductions) + correspondence + reference oracle', ref='6 C09'),
     'C10': dict(text='Proved: C10_chunks_flatten, C10_chunks_row_length, C10_chunks_get, C10_transpose_rows (value at (j,i) = value at (i,j)), '
                      'C10_rejects, C10_wrong_count about the model of tree_transpose. transpose_map variants: correspondence + oracle.' + PARTIAL,
                 technique='Lean 4 proof (list lemmas for chunk/zip) + correspondence', ref='6 C10'),
